@@ -161,15 +161,25 @@ def length(X, st, v):
 
 
 def to_float(X, st, v):
+    """float(json value): numbers, booleans and the strings nan / inf / -inf give one symbolic float
+    (no fork); other strings ValueError (or an unconstrained float), other types TypeError"""
     t = v.t
+    T = core.strlit
+    isnum = z3.Or(jtag(t) == NUM, jtag(t) == BOOL)
+    isstr = jtag(t) == STR
+    s_ = jstr(t)
+    special = z3.And(isstr, z3.Or(s_ == T("nan"), s_ == T("inf"), s_ == T("-inf")))
     out = []
-    for s, isnum in X.branch(st, z3.Or(jtag(t) == NUM, jtag(t) == BOOL)):
-        if isnum:
-            out.append(Res(s, VFl(num_of(t), "float")))
+    for s, ok in X.branch(st, z3.Or(isnum, special)):
+        if ok:
+            fl = Fl(z3.And(isstr, s_ == T("nan")), z3.And(isstr, s_ == T("inf")), z3.And(isstr, s_ == T("-inf")), num_of(t).r)
+            out.append(Res(s, VFl(fl, "float")))
             continue
-        for s2, isstr in X.branch(s, jtag(t) == STR):
-            if isstr:
-                out.extend(X.B.to_float(s2, VStr(jstr(t))))
+        for s2, isstr2 in X.branch(s, isstr):
+            if isstr2:
+                s3 = s2.fork()
+                out.extend(X.raise_(s3, "ValueError", "float(str)"))
+                out.append(Res(s2, VFl(s2.fresh_fl("float_of_str"), "float")))
             else:
                 out.extend(X.raise_(s2, "TypeError", "float(json)"))
     return out
@@ -232,6 +242,25 @@ def child_from_json(X, st, factory, args):
         return outs
     else:
         raise Unsupported(f"nameFromParent {nm!r}")
+    # induction hypothesis L-rt for children: a fragment produced by the child's own toJsonFragment is
+    # accepted by the child's class and decodes to the same view, provided the name travels with it
+    # (inside the fragment, or through nameFromParent when it was suppressed)
+    def leaves(t):
+        if z3.is_app(t) and t.decl().kind() == z3.Z3_OP_ITE:
+            return leaves(t.arg(1)) + leaves(t.arg(2))
+        return [t]
+
+    for leaf in leaves(jt):
+        if z3.is_app(leaf) and leaf.decl().name() == "enc":
+            v0, sup = leaf.children()
+            own = cls == core.cname(core.SH(v0))
+            st.add(z3.Implies(own, validJ(cls, leaf)))
+            name_ok = z3.If(
+                sup,
+                z3.And(hasn == core.has_qname(v0), z3.Implies(hasn, nmt == core.qname(v0))),
+                z3.Or(core.has_qname(v0), z3.Not(hasn)),
+            )
+            st.add(z3.Implies(z3.And(own, name_ok), dec(cls, leaf, nmt, hasn) == v0))
     out = []
     for s, ok in X.branch(st, validJ(cls, jt)):
         if ok:
